@@ -151,7 +151,7 @@ def replace_ref(text, oldvalue, newvalue="n/a"):
         else:
             c1 = match.group("c1")
             c2 = match.group("c2")
-            if c1:
+            if "," in c1:
                 c1 = ""
             elif c2:
                 c2 = ""
